@@ -285,6 +285,11 @@ class Schema:
         if clsname in ("Sequence", "Collection", "Mapping") and sv.k in ("seq", "list", "tuple", "set", "dict"):
             return z3.BoolVal({"Sequence": sv.k in ("seq", "list", "tuple"), "Collection": True,
                                "Mapping": sv.k == "dict"}[clsname])
+        if clsname == "float":
+            if sv.k == "val":
+                from .iomodel import is_float
+                return is_float(sv.t)
+            return z3.BoolVal(False)
         if clsname == "UUID":
             if sv.k == "uuid":
                 return z3.BoolVal(True)
